@@ -12,7 +12,8 @@ import os
 
 from . import common, engine, families as fm, impl, observe, restext, solverplay, tlc
 
-INV = ['NoMatchingUnlessAllProven', 'FirstBadShown', 'ShowsFirstBadOrTimeout', 'StopsAtFirstBad', 'ExportFault']
+INV = ['NoMatchingUnlessAllProven', 'FirstBadShown', 'ShowsFirstBadOrTimeout', 'StopsAtFirstBad', 'PlansAreOK', 'LateOrProvenHolds', 'ExportFault']
+PROPS = ['StepRefinesAbs', 'BeginRefinesAbs']
 KINDS = {"Infeasible", "Unbounded", "Undefined", "Not Solved", "TLI"}
 OUTCOME = {'TLI': 'TimeLimitIncumbent'}
 
@@ -99,6 +100,29 @@ def runs_for(tier):
     return runs
 
 
+def tlaps_stage(rep):
+    """Unbounded: TLAPS re-checks FaultProofs.tla over MPSolverAbs.tla (the module MPSolver.tla extends)."""
+    import re
+    import shutil
+    import subprocess
+    wd = common.subdir('tlaps-%d' % os.getpid())
+    shutil.copy(os.path.join(common.SPEC, 'MPSolverAbs.tla'), wd)
+    shutil.copy(os.path.join(common.SPEC, 'unbounded', 'FaultProofs.tla'), wd)
+    try:
+        r = subprocess.run(['timeout', '900', 'tlapm', '--toolbox', '0', '0', 'FaultProofs.tla'], cwd=wd, capture_output=True, text=True)
+        txt = r.stdout + r.stderr
+    except FileNotFoundError:
+        txt = 'tlapm not found'
+    m = re.search(r'All (\d+) obligations proved', txt)
+    rep.cov['tlaps_fault_proofs'] = {'module': 'spec/unbounded/FaultProofs.tla over spec/MPSolverAbs.tla', 'all_proved': bool(m),
+                                     'obligations': int(m.group(1)) if m else 0,
+                                     'theorems': ['BeginEstablishes', 'StepPreserves', 'StutterPreserves', 'PresentedFullIsProven'],
+                                     'bridge': 'TLC PROPERTY StepRefinesAbs, BeginRefinesAbs and INVARIANT PlansAreOK, LateOrProvenHolds on every MC_Faults family'}
+    if not m:
+        common.machinery_exit(rep.pid, 'TLAPS could not re-check FaultProofs.tla: %s' % txt[-600:])
+    rep.notes.append('TLAPS: %s obligations of FaultProofs.tla proved (every instance, criteria list and outcome plan)' % m.group(1))
+
+
 def main(tier, seed):
     rep = common.Report('C14', tier, seed, level='fault_enumeration')
     pool = engine.Pool()
@@ -125,11 +149,12 @@ def main(tier, seed):
                 seen.add(h)
                 rec['_h'] = h
                 return True
-            res = engine.tlc_replay(rep, pool, 'MC_Faults', replay_fault, consts=r['consts'], invariants=INV, spec='FSpec',
+            res = engine.tlc_replay(rep, pool, 'MC_Faults', replay_fault, consts=r['consts'], invariants=INV, spec='FSpec', properties=PROPS,
                                     label=r['label'], on_result=on_result, export_filter=flt, timeout=3000, **kw)
             rep.notes.append('%s: %s, %d plans exported, %d states' % (r['label'], 'simulate' if r['sim'] else 'exhaustive BFS', res['exports'], res['distinct']))
     finally:
         pool.close()
+    tlaps_stage(rep)
     rep.assumptions = ['a time-limit stop of one solve takes at least the limit (per-solve limit = overall limit)',
                        'faults are injected at COIN_CMD.actualSolve as PuLP would report them (status + solution status)',
                        'after a failed solve the back end may leave zeros, stale values or arbitrary 0/1 values in the variables']
